@@ -59,6 +59,7 @@ fn kind_cause_name(k: &Kind) -> &'static str {
         Kind::Exec => "runnable-task",
         Kind::Stream => "stream-item",
         Kind::Comp { .. } => "composite-fd",
+        Kind::Raw => "level-fd",
     }
 }
 
@@ -88,7 +89,7 @@ fn compute_must(w: &mut World) {
                 Some(a) if !a.fired && a.hi <= now => Some("deadline passed"),
                 _ => None,
             },
-            Kind::Gen { .. } | Kind::Comp { .. } => {
+            Kind::Gen { .. } | Kind::Comp { .. } | Kind::Raw => {
                 let mut any = false;
                 for c in s.fds.iter() {
                     if c.child != ChildSt::Kept || c.child_pending != ChildSt::Kept || c.int == Int::Empty {
@@ -479,7 +480,7 @@ fn check_epoll_table(w: &mut World) {
                     }
                 }
             }
-            Kind::Gen { .. } | Kind::Comp { .. } => {
+            Kind::Gen { .. } | Kind::Comp { .. } | Kind::Raw => {
                 for (k, c) in s.fds.iter().enumerate() {
                     let pos = table.iter().position(|e| e.tfd == c.src_raw);
                     let want = c.child == ChildSt::Kept;
